@@ -22,22 +22,44 @@ class SshdFamily(Family):
         # run); the counters are read before and after each line
         self.harness_mode = ["sshd", "batch=40"]
 
+    # C06's last clause (this node's name and machine id) also through the daemon built from the working tree: a few
+    # sessions in the hand-off family's daemon mode, whose observation counts an event with another target as torn
+    def _ho(self):
+        from .fam_handoff import HandoffFamily
+        return HandoffFamily()
+
+    def modes_for(self, c):
+        if c.get("sessions"):
+            return (["handoff"], ["handoff"])
+        return (self.harness_mode, self.driver_args)
+
+    def impl_obs_for(self, c, raw):
+        return self._ho().impl_obs(raw) if c.get("sessions") else raw
+
     def harness_line(self, c):
+        if c.get("sessions"):
+            return self._ho().harness_line(c)
         return G.case_line(c["id"], c, with_form=False)
 
     def driver_line(self, c, impl_obs):
+        if c.get("sessions"):
+            return self._ho().driver_line(c, impl_obs)
         s = G.case_line(c["id"], c, with_form=True)
         if impl_obs is not None:
             s += " obs=" + impl_obs
         return s
 
     def sample(self, c):
+        if c.get("sessions"):
+            return self._ho().sample(c)
         return {"form": c.get("form"), "pid": c["pid"], "line": c["line"].encode("latin-1").decode("utf-8", "replace"), "write": c["ok"], "handoff": c["h"]}
 
     def signature(self, c, rec):
         return "%s|%s|%s" % (c.get("form"), c["line"], rec.get("ispec"))
 
     def shrink_candidates(self, c):
+        if c.get("sessions"):
+            return []
         line = c["line"]
         out = []
         if c.get("form"):
@@ -72,7 +94,10 @@ class SshdFamily(Family):
         p = self.prop
         if p == "C06":
             self.rule = "all 21 message forms x generated field values (sshd's formats); non-trivial = produced an event; distinct by (form, pid, line, faults)"
-            return G.form_cases(rng, 6300 * n) + G.long_cases(rng, 18 * n)
+            ho = self._ho()
+            dm = [dict(ho.gen(rng, "d", 6), form=None, fields=None, pid="", line="", ok="ok", h="ready") for _ in range(3 * n)]
+            self.rule += "; plus %d runs of the daemon built from the working tree (every event must carry this node's name and machine id)" % len(dm)
+            return G.form_cases(rng, 6300 * n) + G.long_cases(rng, 18 * n) + dm
         if p == "C17":
             self.rule = "invalid-user / failed-password / max-attempts forms with client-chosen names (spaces, ' from ', ' port ', embedded fragments) x addresses x ports"
             return G.form_cases(rng, 6000 * n, forms=G.C17_FORMS, adversarial_every=1) + G.form_cases(rng, 1500 * n, forms=G.C17_FORMS)
